@@ -192,6 +192,89 @@ theorem visitKVs_plain_eq_asrep (w : Bool) : ∀ (kvs : KVs) (s : Sch),
         simp only [visit_plain_eq_asrep w v a h.1]
 end
 
+/-! ### decimal rendering of integers, and parseInt64 reads it back -/
+
+def digitChar (d : Nat) : Char := Char.ofNat (48 + d)
+
+/-- decimal digits of n, most significant first (fuel f ≥ n suffices) -/
+def showNatF : Nat → Nat → List Char
+  | 0, n => [digitChar (n % 10)]
+  | f + 1, n => if n < 10 then [digitChar n] else showNatF f (n / 10) ++ [digitChar (n % 10)]
+
+def showNat (n : Nat) : List Char := showNatF n n
+
+/-- strconv.FormatInt(n, 10) -/
+def showInt : Int → List Char
+  | .ofNat n => showNat n
+  | .negSucc n => '-' :: showNat (n + 1)
+
+theorem digitVal_digitChar : ∀ d, d < 10 → digitVal (digitChar d) = some d := by decide
+
+theorem digitChar_not_sign : ∀ d, d < 10 → digitChar d ≠ '-' ∧ digitChar d ≠ '+' := by decide
+
+theorem digitsVal_snoc (c : Char) : ∀ (xs : List Char) (a : Nat),
+    digitsVal (xs ++ [c]) a = (digitsVal xs a).bind (fun m => (digitVal c).map (fun d => m * 10 + d))
+  | [], a => by simp [digitsVal]; cases digitVal c <;> simp [digitsVal]
+  | x :: xs, a => by
+    simp only [List.cons_append, digitsVal]
+    cases digitVal x with
+    | none => simp
+    | some d => exact digitsVal_snoc c xs (a * 10 + d)
+
+theorem digitsVal_showNatF : ∀ (f n : Nat), n ≤ f → digitsVal (showNatF f n) 0 = some n
+  | 0, n, h => by
+    have : n = 0 := by omega
+    subst this
+    simp [showNatF, digitsVal, digitVal_digitChar 0 (by omega)]
+  | f + 1, n, h => by
+    unfold showNatF
+    split
+    · rename_i hn
+      simp [digitsVal, digitVal_digitChar n hn]
+    · rename_i hn
+      have ih := digitsVal_showNatF f (n / 10) (by omega)
+      rw [digitsVal_snoc, ih]
+      simp only [Option.bind_some, digitVal_digitChar (n % 10) (by omega), Option.map_some, Option.some.injEq]
+      omega
+
+theorem showNatF_head : ∀ (f n : Nat), ∃ d rest, d < 10 ∧ showNatF f n = digitChar d :: rest
+  | 0, n => ⟨n % 10, [], by omega, rfl⟩
+  | f + 1, n => by
+    unfold showNatF
+    split
+    · rename_i hn; exact ⟨n, [], hn, rfl⟩
+    · obtain ⟨d, rest, hd, he⟩ := showNatF_head f (n / 10)
+      exact ⟨d, rest ++ [digitChar (n % 10)], hd, by simp [he]⟩
+
+theorem splitSign_digit (d : Nat) (rest : List Char) (hd : d < 10) :
+    splitSign (digitChar d :: rest) = (false, digitChar d :: rest) := by
+  obtain ⟨h1, h2⟩ := digitChar_not_sign d hd
+  unfold splitSign
+  split
+  · rename_i heq; simp at heq; exact absurd heq.1 h1
+  · rename_i heq; simp at heq; exact absurd heq.1 h2
+  · rfl
+
+theorem parseInt64_showNat (n : Nat) (h : n ≤ 9223372036854775807) : parseInt64 (showNat n) = some (n : Int) := by
+  obtain ⟨d, rest, hd, he⟩ := showNatF_head n n
+  have hv := digitsVal_showNatF n n (Nat.le_refl n)
+  unfold showNat at *
+  unfold parseInt64
+  rw [he, splitSign_digit d rest hd]
+  rw [he] at hv
+  simp [hv, h]
+
+theorem parseInt64_neg_showNat (n : Nat) (h : n ≤ 9223372036854775808) :
+    parseInt64 ('-' :: showNat n) = some (-(n : Int)) := by
+  obtain ⟨d, rest, hd, he⟩ := showNatF_head n n
+  have hv := digitsVal_showNatF n n (Nat.le_refl n)
+  unfold showNat at *
+  unfold parseInt64
+  have : splitSign ('-' :: showNatF n n) = (true, showNatF n n) := rfl
+  rw [this]
+  rw [he] at hv ⊢
+  simp [hv, h]
+
 /-! ### header decoding -/
 
 theorem parsePrim_ne_panic (t : Ty) (raw : String) : parsePrim t raw ≠ .panic := by
@@ -443,7 +526,7 @@ theorem firstErr_some_split (f : Hdr → Option Err) (l : List Hdr) (e : Err) (h
 
 /-! ### one header, the body -/
 
-theorem checkHeader_iff (canon : String → String) (w : Bool) (hdrs : List (String × String)) (h : Hdr)
+theorem checkHeader_iff (canon : String → String) (w : Bool) (hdrs : List (String × Option String)) (h : Hdr)
     (h1 : hdrDecodedNil canon hdrs h = false) (h2 : hdrArrayNoItems canon hdrs h = false) :
     checkHeader canon w hdrs h = none ↔ HeaderOK canon w hdrs h := by
   unfold checkHeader HeaderOK
@@ -459,7 +542,7 @@ theorem checkHeader_iff (canon : String → String) (w : Bool) (hdrs : List (Str
     | some s =>
       simp only [hl, hs] at h1 h2
       simp only [Option.some.injEq, forall_eq']
-      cases hd : decodeHeader s h.explode raw h.emptyNameDec with
+      cases hd : decodeHdrVal s h.explode raw h.emptyNameDec with
       | err => simp [specValue]
       | panic => simp [hd] at h2
       | nil => simp [hd] at h1
@@ -507,7 +590,7 @@ theorem checkBody_iff (reg : List (String × String)) (o : Opts) (i : Input) (r 
             · simp [← e3, hb]
 
 
-theorem headerOKB_iff (canon : String → String) (w : Bool) (hdrs : List (String × String)) (h : Hdr) :
+theorem headerOKB_iff (canon : String → String) (w : Bool) (hdrs : List (String × Option String)) (h : Hdr) :
     headerOKB canon w hdrs h = true ↔ HeaderOK canon w hdrs h := by
   unfold headerOKB HeaderOK
   cases lookup (canon h.name) hdrs with
@@ -517,7 +600,7 @@ theorem headerOKB_iff (canon : String → String) (w : Bool) (hdrs : List (Strin
     | none => simp
     | some s =>
       simp only [Option.some.injEq, forall_eq']
-      cases hv : specValue (decodeHeader s h.explode raw h.emptyNameDec) raw with
+      cases hv : specValue (decodeHdrVal s h.explode raw h.emptyNameDec) raw with
       | none => simp
       | some v => simp [satRepB_iff]
 
@@ -544,14 +627,14 @@ theorem bodyOKB_iff (reg : List (String × String)) (o : Opts) (i : Input) (r : 
 
 theorem validateResponse_selected (canon : String → String) (reg : List (String × String)) (o : Opts) (i : Input) (r : Resp)
     (hm : i.method ≠ "HEAD") (hs : skipStatus i.status = false) (he : i.responses.isEmpty = false)
-    (hsel : selected i.responses i.status = some r) :
+    (hsel : selected i.responses i.status = some r) (hr : r.resolved = true) :
     validateResponse canon reg o i =
       match firstErr (checkHeader canon o.woOff i.hdrs) (checkedHeaders r) with
       | some e => ⟨some e, some i.body⟩
       | none => checkBody reg o i r := by
   unfold validateResponse
   rw [firstSome_statusKeys, hsel]
-  simp only [hm, hs, he, if_false, Bool.false_eq_true]
+  simp only [hm, hs, he, hr, if_false, Bool.false_eq_true, Bool.not_true, Bool.false_and]
   cases firstErr (checkHeader canon o.woOff i.hdrs) (checkedHeaders r) <;> rfl
 
 end KinModel.Response
